@@ -68,6 +68,23 @@ def _rand_generic(depth):
 
 
 GENERIC_SPECS = {d: [_rand_generic(d) for _ in range(24)] for d in (0, 1, 2)}
+# decoys: MOS-significant tags nested below an unrelated element.  Only *direct*
+# children count as stories / items / paragraphs / IDs, so none of these may ever be
+# picked up by a lookup or an accessor.
+_DECOYS = [
+    ('wrapper', {}, None, [('item', {}, None, [('itemID', {}, 'NESTED-ITEM', [], None),
+                                                 ('itemSlug', {}, 'nested', [], None)], None)], None),
+    ('wrapper', {}, None, [('p', {}, 'nested paragraph', [], None), ('p', {}, '(nested note)', [], 't')], None),
+    ('mosExternalMetadata2', {}, None, [('mosPayload', {}, None, [
+        ('story', {}, None, [('storyID', {}, 'NESTED-STORY', [], None)], None),
+        ('storyItem', {}, None, [('itemID', {}, 'NESTED-SI', [], None)], None)], None)], None),
+    ('custom', {'type': 'note'}, 'x', [('storyID', {}, 'S0', [], None), ('itemID', {}, 'I0', [], None),
+                                        ('studioCommand', {'type': 'note'}, None, [('text', {}, 'decoy', [], None)], None)], None),
+    ('wrapper', {}, None, [('roDelete', {}, None, [('roID', {}, 'X', [], None)], None),
+                           ('mosromgrmeta', {}, None, [], None), ('roCreate', {}, None, [], None)], None),
+]
+for _d in (1, 2):
+    GENERIC_SPECS[_d] = GENERIC_SPECS[_d] + _DECOYS
 
 
 def generic(depth=2, tags=None):
@@ -218,16 +235,22 @@ def distinct(pool, min_size=0, max_size=6):
     return st.lists(st.sampled_from(pool), unique=True, min_size=min_size, max_size=max_size)
 
 
+# schema values that are prefixes / case variants of each other
+SCHEMAS = ['http://schema/1', 'http://schema/10', 'http://schema/1/sub', 'HTTP://SCHEMA/1', 'http://schema/2',
+           'http://schema/']
+
+
 @st.composite
 def ro_metadata(draw, n_md):
     """n_md distinct-tag metadata children: mosExternalMetadata blocks with
     distinct mosSchema plus unique generic tags."""
     out = []
     tags = draw(st.permutations(['roChannel', 'roEdDur', 'roTrigger', 'macroIn', 'custom']))
+    off = draw(st.integers(0, len(SCHEMAS) - 1))
     for i in range(n_md):
         if draw(st.booleans()):
             md = E('mosExternalMetadata', T('mosScope', 'PLAYLIST'),
-                   T('mosSchema', f'http://schema/{i}'),
+                   T('mosSchema', SCHEMAS[(i + off) % len(SCHEMAS)]),
                    E('mosPayload', T('k', draw(st.sampled_from(TEXT_POOL))), draw(generic(depth=1))))
             out.append(md)
         else:
@@ -392,8 +415,9 @@ def message(draw, state, ro_id, kinds=B.ALL_KINDS, faults='some', rich=True, mid
         post = []
         if rich and head and draw(st.booleans()):
             post = [head.pop()]
+        bi = draw(st.integers(0, len(head) + len(post) + 2)) if rich and draw(st.booleans()) else None
         body = B.story_send(ro_id, sid, head=head, body=sbody, post=post,
-                            attrib=dict(stx.attrib))
+                            attrib=dict(stx.attrib), body_index=bi)
     elif kind == 'roItemInsert':
         s, its = story_and_items()
         ref = draw(st.sampled_from(['', ''] + its)) if its and faults == 'none' else \
